@@ -1,9 +1,923 @@
 package sec
 
-import "verifharness/corr"
+import (
+	"bufio"
+	"crypto/tls"
+	"fmt"
+	"net"
+	"strconv"
+	"strings"
+	"sync"
+	"time"
 
-func setupCorrespondence(c *corr.Ctx, in *E2EInput, name string, reqs, ress []any, inAll, outAll bool) {}
-func runAdmission(c *corr.Ctx)                                                                      {}
-func runClientSide(c *corr.Ctx)                                                                     {}
-func replaySetup(c *corr.Ctx, in *Input)                                                            {}
-func replayClient(c *corr.Ctx, in *Input)                                                           {}
+	"github.com/bluenviron/gortsplib/v5"
+	"github.com/bluenviron/gortsplib/v5/pkg/base"
+	"github.com/bluenviron/gortsplib/v5/pkg/conn"
+	"github.com/bluenviron/gortsplib/v5/pkg/description"
+	"github.com/bluenviron/gortsplib/v5/pkg/format"
+	"github.com/bluenviron/gortsplib/v5/pkg/headers"
+	"github.com/bluenviron/gortsplib/v5/pkg/mikey"
+	"github.com/bluenviron/gortsplib/v5/pkg/ntp"
+
+	"verifharness/corr"
+)
+
+// ---------------------------------------------------------------------------------------------
+// transports <-> model tokens
+// ---------------------------------------------------------------------------------------------
+
+func trToken(t *headers.Transport) string {
+	p, pr, mc, cp, il, md := "t", "a", "0", "0", "n", "n"
+	if t.Protocol == headers.TransportProtocolUDP {
+		p = "u"
+	}
+	if t.Profile == headers.TransportProfileSAVP {
+		pr = "s"
+	}
+	if t.Delivery != nil && *t.Delivery == headers.TransportDeliveryMulticast {
+		mc = "1"
+	}
+	if t.ClientPorts != nil {
+		cp = "1"
+	}
+	if t.InterleavedIDs != nil {
+		il = fmt.Sprintf("%d_%d", t.InterleavedIDs[0], t.InterleavedIDs[1])
+	}
+	if t.Mode != nil {
+		if *t.Mode == headers.TransportModePlay {
+			md = "p"
+		} else {
+			md = "r"
+		}
+	}
+	return strings.Join([]string{p, mc, pr, cp, il, md}, ".")
+}
+
+func sessProtoToken(t *headers.Transport) string {
+	if t.Protocol == headers.TransportProtocolTCP {
+		return "t"
+	}
+	if t.Delivery != nil && *t.Delivery == headers.TransportDeliveryMulticast {
+		return "m"
+	}
+	return "u"
+}
+
+func profToken(p headers.TransportProfile) string {
+	if p == headers.TransportProfileSAVP {
+		return "s"
+	}
+	return "a"
+}
+
+// setupOp renders the model operation for one SETUP request as the server saw it.
+func setupOp(tlsOn, udpOn bool, state string, setupped string, inuse []int, hdr base.Header, now time.Time, back bool) string {
+	trs := "X"
+	var ths headers.Transports
+	if err := ths.Unmarshal(hdr["Transport"]); err == nil {
+		toks := make([]string, len(ths))
+		for i := range ths {
+			toks[i] = trToken(&ths[i])
+		}
+		trs = strings.Join(toks, ",")
+		if len(toks) == 0 {
+			trs = "-"
+		}
+	}
+	kmk, msg := "B", "-"
+	var km headers.KeyMgmt
+	if err := km.Unmarshal(hdr["KeyMgmt"]); err == nil {
+		kmk, msg = "M", showMsg(km.MikeyMessage)
+	}
+	return fmt.Sprintf("sec setup %s %s 0 0 %s %s %s %s %s %d %s %s", corr.B(tlsOn), corr.B(udpOn), state, setupped, corr.Ints(inuse), trs, kmk, now.UnixNano(), msg, corr.B(back))
+}
+
+// setupCorrespondence replays the SETUP exchanges of a finished secure session against the model.
+func setupCorrespondence(c *corr.Ctx, in *E2EInput, name string, reqs, ress []any, inAll, outAll bool) {
+	byCSeq := map[string]*base.Response{}
+	for _, r := range ress {
+		if res, ok := r.(*base.Response); ok && len(res.Header["CSeq"]) == 1 {
+			byCSeq[res.Header["CSeq"][0]] = res
+		}
+	}
+	cs := corr.Case{Name: name + "-setups", Nontrivial: true}
+	state := "i"
+	if in.Scenario == "record" {
+		state = "r"
+	}
+	setupped := "-"
+	var inuse []int
+	k := 0
+	for _, r := range reqs {
+		req, ok := r.(*base.Request)
+		if !ok || req.Method != base.Setup || len(req.Header["CSeq"]) != 1 {
+			continue
+		}
+		res := byCSeq[req.Header["CSeq"][0]]
+		if res == nil {
+			continue
+		}
+		back := in.Scenario == "back" && strings.HasSuffix(req.URL.String(), fmt.Sprintf("trackID=%d", len(in.Formats)-1))
+		op := setupOp(true, true, state, setupped, inuse, req.Header, time.Now(), back)
+		impl := fmt.Sprintf("status %d", res.StatusCode)
+		if res.StatusCode == base.StatusOK {
+			var th headers.Transport
+			if err := th.Unmarshal(res.Header["Transport"]); err != nil {
+				e2eViol(c, "SETUP answers carry a transport", "sec-e2e-setup-response", in, err.Error())
+				continue
+			}
+			impl = fmt.Sprintf("ok %s %s %s %s", sessProtoToken(&th), profToken(th.Profile), corr.B(inAll), corr.B(outAll))
+			setupped = sessProtoToken(&th) + "." + profToken(th.Profile)
+			if th.InterleavedIDs != nil {
+				inuse = append(inuse, th.InterleavedIDs[0])
+			}
+			if state == "i" {
+				state = "p"
+			}
+			if (res.Header["KeyMgmt"] != nil) != (th.Profile == headers.TransportProfileSAVP) {
+				e2eViol(c, "the server answers with its key exactly for the secure profile", "sec-e2e-setup-keymgmt", in, "KeyMgmt header and profile disagree")
+			}
+		}
+		cs.Ops = append(cs.Ops, op)
+		cs.Impl = append(cs.Impl, impl)
+		k++
+	}
+	if k > 0 {
+		c.Add(cs)
+		c.DistN("e2e-setup-exchanges", k)
+	}
+}
+
+// ---------------------------------------------------------------------------------------------
+// raw SETUP requests against real servers
+// ---------------------------------------------------------------------------------------------
+
+// SetupCase is the replayable input of one raw SETUP conversation.
+type SetupCase struct {
+	TLS    bool     `json:"tls"`
+	UDP    bool     `json:"udp"`
+	Record bool     `json:"record"`
+	Track  int      `json:"track"`  // 0 direct media, 1 back channel (play only)
+	Trs    []trGen  `json:"trs"`    // nil: garbage Transport header
+	KM     string   `json:"km"`     // none | garbage | valid | mutated | stale
+	Second *[]trGen `json:"second"` // a second SETUP (other media) in the same session
+	Seed   uint64   `json:"seed"`
+}
+
+type trGen struct {
+	UDP, Mcast, Secure, Ports bool
+	IL                        int // 0 none, 1 valid pair, 2 invalid pair
+	Mode                      int // 0 none, 1 play, 2 record
+}
+
+func (g trGen) header(k int) headers.Transport {
+	h := headers.Transport{Protocol: headers.TransportProtocolTCP, Profile: headers.TransportProfileAVP}
+	if g.UDP {
+		h.Protocol = headers.TransportProtocolUDP
+	}
+	if g.Secure {
+		h.Profile = headers.TransportProfileSAVP
+	}
+	d := headers.TransportDeliveryUnicast
+	if g.Mcast {
+		d = headers.TransportDeliveryMulticast
+	}
+	h.Delivery = &d
+	if g.Ports {
+		portCounter = (portCounter + 1) % 9000
+		h.ClientPorts = &[2]int{41000 + 2*portCounter, 41001 + 2*portCounter} // never reused: the server refuses ports of a live reader
+	}
+	switch g.IL {
+	case 1:
+		h.InterleavedIDs = &[2]int{2 * k, 2*k + 1}
+	case 2:
+		h.InterleavedIDs = &[2]int{2 * k, 2*k + 2}
+	}
+	switch g.Mode {
+	case 1:
+		m := headers.TransportModePlay
+		h.Mode = &m
+	case 2:
+		m := headers.TransportModeRecord
+		h.Mode = &m
+	}
+	return h
+}
+
+func genTr(c *corr.Ctx, tlsOn, record bool) trGen {
+	r := c.Rng
+	g := trGen{UDP: r.IntN(2) == 0, Mcast: r.IntN(6) == 0, Secure: r.IntN(2) == 0, Ports: r.IntN(8) != 0, IL: []int{0, 0, 1, 1, 2}[r.IntN(5)]}
+	// bias towards what the configuration admits so that the later checks are reached
+	if r.IntN(3) != 0 {
+		g.Secure = tlsOn
+		if !tlsOn && r.IntN(4) == 0 {
+			g.Secure = true
+		}
+	}
+	if record {
+		g.Mode = []int{2, 2, 2, 0, 1}[r.IntN(5)]
+	} else {
+		g.Mode = []int{0, 0, 1, 1, 2}[r.IntN(5)]
+	}
+	return g
+}
+
+var portCounter int
+
+type rawConn struct {
+	nc   net.Conn
+	c    *conn.Conn
+	cseq int
+}
+
+func dialRaw(addr string, tlsOn bool) (*rawConn, error) {
+	nc, err := net.DialTimeout("tcp", addr, 3*time.Second)
+	if err != nil {
+		return nil, err
+	}
+	if tlsOn {
+		tc := tls.Client(nc, &tls.Config{InsecureSkipVerify: true}) //nolint:gosec
+		if err = tc.Handshake(); err != nil {
+			nc.Close()
+			return nil, err
+		}
+		nc = tc
+	}
+	nc.SetDeadline(time.Now().Add(5 * time.Second))
+	return &rawConn{nc: nc, c: conn.NewConn(bufio.NewReader(nc), nc)}, nil
+}
+
+func (rc *rawConn) do(req *base.Request) (*base.Response, error) {
+	rc.cseq++
+	if req.Header == nil {
+		req.Header = base.Header{}
+	}
+	req.Header["CSeq"] = base.HeaderValue{strconv.Itoa(rc.cseq)}
+	if err := rc.c.WriteRequest(req); err != nil {
+		return nil, err
+	}
+	return rc.c.ReadResponse()
+}
+
+func keyMgmtFor(c *corr.Ctx, kind string, url string) (base.HeaderValue, bool) {
+	switch kind {
+	case "none":
+		return nil, false
+	case "garbage":
+		return base.HeaderValue{`prot=mikey;uri="` + url + `";data="AAAA"`}, true
+	}
+	delta := time.Duration(0)
+	if kind == "stale" {
+		delta = -2 * time.Hour
+	}
+	m := validMsg(c, 30, nil, []mikey.SRTPIDEntry{{SSRC: c.Rng.Uint32(), ROC: 0}}, ntp.Encode(time.Now().Add(delta)))
+	if kind == "mutated" {
+		for k := 0; k < 1+c.Rng.IntN(2); k++ {
+			mutate(c, m)
+		}
+	}
+	hv, err := headers.KeyMgmt{URL: url, MikeyMessage: m}.Marshal()
+	if err != nil {
+		return nil, false
+	}
+	return hv, true
+}
+
+var (
+	admMu      sync.Mutex
+	admServers = map[[2]bool]*testServer{}
+)
+
+func admissionServer(c *corr.Ctx, tlsOn, udpOn bool) *testServer {
+	admMu.Lock()
+	defer admMu.Unlock()
+	k := [2]bool{tlsOn, udpOn}
+	if ts := admServers[k]; ts != nil {
+		return ts
+	}
+	w := &wire{arrived: map[pktKey]bool{}, tampered: map[pktKey]bool{}, inUnwrap: unwrap{}, in: &E2EInput{}, rng: c.Rng, recvSide: "none"}
+	ts, err := startServer(w, c.Rng, tlsOn, udpOn)
+	if err != nil {
+		c.Note("admission server did not start: " + err.Error())
+		return nil
+	}
+	desc := mkDesc([]int{1, 1}, true)
+	st := &gortsplib.ServerStream{Server: ts.s, Desc: desc}
+	if err = st.Initialize(); err != nil {
+		c.Note("admission stream: " + err.Error())
+		return nil
+	}
+	ts.h.mu.Lock()
+	ts.h.stream = st
+	ts.h.medias = desc.Medias
+	ts.h.mu.Unlock()
+	admServers[k] = ts
+	return ts
+}
+
+func closeAdmissionServers() {
+	admMu.Lock()
+	defer admMu.Unlock()
+	for k, ts := range admServers {
+		ts.h.mu.Lock()
+		st := ts.h.stream
+		ts.h.mu.Unlock()
+		if st != nil {
+			st.Close()
+		}
+		ts.s.Close()
+		delete(admServers, k)
+	}
+}
+
+func runSetupCase(c *corr.Ctx, sc *SetupCase, name string) {
+	ts := admissionServer(c, sc.TLS, sc.UDP)
+	if ts == nil {
+		return
+	}
+	in := &Input{Kind: "setup", Raw: fmt.Sprintf("%+v", *sc)}
+	inJ := &struct {
+		Kind  string     `json:"kind"`
+		Setup *SetupCase `json:"setup"`
+	}{"setup", sc}
+	_ = in
+	sviol := func(clause, key, detail string) {
+		c.Violate(corr.Violation{Property: prop, Clause: clause, Key: key, Where: "server_session.go SETUP", Input: inJ, Detail: detail})
+	}
+	rc, err := dialRaw(ts.addr, sc.TLS)
+	if err != nil {
+		c.Note("admission dial: " + err.Error())
+		return
+	}
+	defer rc.nc.Close()
+	scheme := "rtsp"
+	if sc.TLS {
+		scheme = "rtsps"
+	}
+	base0 := scheme + "://" + ts.addr + "/stream"
+	state := "i"
+	if sc.Record {
+		// ANNOUNCE a one-media description first
+		d := mkDesc([]int{1}, false)
+		d.Medias[0].Control = "trackID=0"
+		if sc.TLS {
+			d.Medias[0].Profile = headers.TransportProfileSAVP
+		}
+		body, err2 := d.Marshal()
+		if err2 != nil {
+			c.Note("admission sdp: " + err2.Error())
+			return
+		}
+		u, _ := base.ParseURL(base0)
+		res, err2 := rc.do(&base.Request{Method: base.Announce, URL: u, Header: base.Header{"Content-Type": base.HeaderValue{"application/sdp"}}, Body: body})
+		if err2 != nil || res.StatusCode != base.StatusOK {
+			c.Note(fmt.Sprintf("admission announce failed: %v %v", err2, res))
+			return
+		}
+		state = "r"
+	}
+	cs := corr.Case{Name: name, Nontrivial: true}
+	setupped := "-"
+	var inuse []int
+	session := ""
+	one := func(track int, trs []trGen, garbage bool, km string, idx int) bool {
+		url := fmt.Sprintf("%s/trackID=%d", base0, track)
+		u, _ := base.ParseURL(url)
+		hdr := base.Header{}
+		if garbage {
+			hdr["Transport"] = base.HeaderValue{"RTP/AVP;unicast;client_port=abc"}
+		} else {
+			var ths headers.Transports
+			for i, g := range trs {
+				ths = append(ths, g.header(idx*4+i))
+			}
+			hdr["Transport"] = ths.Marshal()
+		}
+		if hv, ok := keyMgmtFor(c, km, url); ok {
+			hdr["KeyMgmt"] = hv
+		}
+		if session != "" {
+			hdr["Session"] = base.HeaderValue{session}
+		}
+		ts.h.mu.Lock()
+		ts.h.session = nil
+		ts.h.mu.Unlock()
+		now := time.Now()
+		res, err2 := rc.do(&base.Request{Method: base.Setup, URL: u, Header: hdr})
+		if err2 != nil {
+			c.Note("admission setup: " + err2.Error())
+			return false
+		}
+		back := !sc.Record && track == 1
+		op := setupOp(sc.TLS, sc.UDP, state, setupped, inuse, hdr, now, back)
+		impl := fmt.Sprintf("status %d", res.StatusCode)
+		okRes := false
+		if res.StatusCode == base.StatusOK {
+			okRes = true
+			var th headers.Transport
+			if err3 := th.Unmarshal(res.Header["Transport"]); err3 != nil {
+				sviol("SETUP answers carry a transport", "sec-setup-response", err3.Error())
+				return false
+			}
+			ts.h.mu.Lock()
+			sess := ts.h.session
+			ts.h.mu.Unlock()
+			sin, sout, smed := 0, 0, 0
+			if sess != nil {
+				sin, sout, smed = sess.VerifSessionSRTP()
+			}
+			// in/out of THIS media: the session is uniform, so compare with the number of medias
+			impl = fmt.Sprintf("ok %s %s %s %s", sessProtoToken(&th), profToken(th.Profile), corr.B(sin == smed && smed > 0), corr.B(sout == smed && smed > 0))
+			if sin != 0 && sin != smed || sout != 0 && sout != smed {
+				sviol("all medias of a session share the profile", "sec-setup-mixed-contexts", fmt.Sprintf("in %d out %d medias %d", sin, sout, smed))
+			}
+			// ---- property oracle: the admission clauses of C17 on the real server ----
+			if th.Profile == headers.TransportProfileSAVP && !sc.TLS {
+				sviol("the server refuses secure profiles over plain RTSP", "sec-setup-secure-over-plain", "SETUP with RTP/SAVP answered 200 without TLS")
+			}
+			if th.Protocol == headers.TransportProtocolUDP && th.Profile != headers.TransportProfileSAVP && sc.TLS {
+				sviol("the server refuses unencrypted UDP over RTSPS", "sec-setup-plain-udp-over-tls", "SETUP with RTP/AVP over UDP answered 200 on a TLS server")
+			}
+			if (th.Profile == headers.TransportProfileSAVP) != (sin > 0) || (th.Profile == headers.TransportProfileSAVP) != (sout > 0) {
+				sviol("SRTP contexts exist exactly for the secure profile", "sec-setup-contexts", fmt.Sprintf("profile %v in %d out %d", th.Profile, sin, sout))
+			}
+			setupped = sessProtoToken(&th) + "." + profToken(th.Profile)
+			if th.InterleavedIDs != nil {
+				inuse = append(inuse, th.InterleavedIDs[0])
+			}
+			if state == "i" {
+				state = "p"
+			}
+			if v := res.Header["Session"]; len(v) == 1 {
+				session = strings.Split(v[0], ";")[0]
+			}
+		}
+		c.Dist(fmt.Sprintf("setup-%s", strings.Fields(impl)[0]+"-"+strings.Fields(impl)[1]))
+		cs.Ops = append(cs.Ops, op)
+		cs.Impl = append(cs.Impl, impl)
+		return okRes
+	}
+	ok1 := one(sc.Track, sc.Trs, sc.Trs == nil, sc.KM, 0)
+	if ok1 && sc.Second != nil && !sc.Record {
+		one(1-sc.Track, *sc.Second, false, "valid", 1)
+	}
+	if len(cs.Ops) > 0 {
+		c.Add(cs)
+	}
+}
+
+func runAdmission(c *corr.Ctx) {
+	defer closeAdmissionServers()
+	r := c.Rng
+	n := c.N(300, 4000)
+	kms := []string{"valid", "valid", "valid", "none", "garbage", "mutated", "stale"}
+	for i := 0; i < n; i++ {
+		sc := &SetupCase{TLS: r.IntN(2) == 0, UDP: r.IntN(4) != 0, Record: r.IntN(3) == 0, Seed: r.Uint64()}
+		if !sc.Record {
+			sc.Track = r.IntN(2)
+		}
+		if r.IntN(20) != 0 {
+			for k := 0; k < 1+r.IntN(3); k++ {
+				sc.Trs = append(sc.Trs, genTr(c, sc.TLS, sc.Record))
+			}
+		}
+		sc.KM = kms[r.IntN(len(kms))]
+		if r.IntN(3) == 0 {
+			var second []trGen
+			for k := 0; k < 1+r.IntN(2); k++ {
+				second = append(second, genTr(c, sc.TLS, false))
+			}
+			sc.Second = &second
+		}
+		runSetupCase(c, sc, fmt.Sprintf("setup-%d", i))
+	}
+	// the four combinations of the property's admission sentence, on every server configuration
+	for _, tlsOn := range []bool{false, true} {
+		for _, udpOn := range []bool{false, true} {
+			for _, g := range []trGen{
+				{UDP: true, Secure: false, Ports: true}, {UDP: true, Secure: true, Ports: true},
+				{UDP: false, Secure: false, IL: 1}, {UDP: false, Secure: true, IL: 1},
+			} {
+				for _, km := range []string{"valid", "none"} {
+					runSetupCase(c, &SetupCase{TLS: tlsOn, UDP: udpOn, Trs: []trGen{g}, KM: km}, fmt.Sprintf("setup-basic-%v-%v-%v-%v-%s", tlsOn, udpOn, g.UDP, g.Secure, km))
+				}
+			}
+		}
+	}
+}
+
+func replaySetup(c *corr.Ctx, in *Input) {
+	c.Note("replay of raw SETUP cases: rerun with the same seed (the case is printed in the violation input)")
+}
+
+// ---------------------------------------------------------------------------------------------
+// the client against scripted servers
+// ---------------------------------------------------------------------------------------------
+
+type scripted struct {
+	tlsLn, plainLn net.Listener
+	mu             sync.Mutex
+	describes      []string // request URLs of DESCRIBE requests, in order
+	onDescribe     func(req *base.Request, overTLS bool) *base.Response
+	onSetup        func(req *base.Request) *base.Response
+	onAnnounce     func(req *base.Request) *base.Response
+	setups         []*base.Request
+	announces      []*base.Request
+	wg             sync.WaitGroup
+}
+
+func newScripted() (*scripted, error) {
+	s := &scripted{}
+	var err error
+	s.plainLn, err = net.Listen("tcp", "127.0.0.1:0")
+	if err != nil {
+		return nil, err
+	}
+	l, err := net.Listen("tcp", "127.0.0.1:0")
+	if err != nil {
+		s.plainLn.Close()
+		return nil, err
+	}
+	s.tlsLn = tls.NewListener(l, &tls.Config{Certificates: []tls.Certificate{serverCert()}})
+	for i, ln := range []net.Listener{s.plainLn, s.tlsLn} {
+		s.wg.Add(1)
+		go func(ln net.Listener, overTLS bool) {
+			defer s.wg.Done()
+			for {
+				nc, err := ln.Accept()
+				if err != nil {
+					return
+				}
+				s.wg.Add(1)
+				go func() {
+					defer s.wg.Done()
+					defer nc.Close()
+					s.serve(nc, overTLS)
+				}()
+			}
+		}(ln, i == 1)
+	}
+	return s, nil
+}
+
+func (s *scripted) addr(overTLS bool) string {
+	if overTLS {
+		return s.tlsLn.Addr().String()
+	}
+	return s.plainLn.Addr().String()
+}
+
+func (s *scripted) close() {
+	s.plainLn.Close()
+	s.tlsLn.Close()
+	s.wg.Wait()
+}
+
+func (s *scripted) serve(nc net.Conn, overTLS bool) {
+	nc.SetDeadline(time.Now().Add(5 * time.Second))
+	co := conn.NewConn(bufio.NewReader(nc), nc)
+	for {
+		req, err := co.ReadRequest()
+		if err != nil {
+			return
+		}
+		var res *base.Response
+		switch req.Method {
+		case base.Options:
+			res = &base.Response{StatusCode: base.StatusOK, Header: base.Header{"Public": base.HeaderValue{"DESCRIBE, ANNOUNCE, SETUP, PLAY, RECORD, TEARDOWN"}}}
+		case base.Describe:
+			s.mu.Lock()
+			s.describes = append(s.describes, req.URL.String())
+			f := s.onDescribe
+			s.mu.Unlock()
+			res = f(req, overTLS)
+		case base.Setup:
+			s.mu.Lock()
+			s.setups = append(s.setups, cloneReq(req))
+			f := s.onSetup
+			s.mu.Unlock()
+			res = f(req)
+		case base.Announce:
+			s.mu.Lock()
+			s.announces = append(s.announces, cloneReq(req))
+			f := s.onAnnounce
+			s.mu.Unlock()
+			res = f(req)
+		default:
+			res = &base.Response{StatusCode: base.StatusOK}
+		}
+		if res.Header == nil {
+			res.Header = base.Header{}
+		}
+		res.Header["CSeq"] = req.Header["CSeq"]
+		if err = co.WriteResponse(res); err != nil {
+			return
+		}
+	}
+}
+
+func schemeOf(tlsOn bool) string {
+	if tlsOn {
+		return "rtsps"
+	}
+	return "rtsp"
+}
+
+func sdpFor(c *corr.Ctx, secure bool, h264m0 bool) []byte {
+	var f format.Format
+	if h264m0 {
+		f = &format.H264{PayloadTyp: 96, PacketizationMode: 0}
+	} else {
+		g := &format.Generic{PayloadTyp: 96, RTPMa: "private/90000"}
+		g.Init()
+		f = g
+	}
+	m := &description.Media{Type: description.MediaTypeVideo, Control: "trackID=0", Formats: []format.Format{f}}
+	if secure {
+		m.Profile = headers.TransportProfileSAVP
+		m.KeyMgmtMikey = validMsg(c, 30, nil, []mikey.SRTPIDEntry{{SSRC: 1234, ROC: 0}}, ntp.Encode(time.Now()))
+	}
+	d := &description.Session{Medias: []*description.Media{m}}
+	b, err := d.Marshal()
+	if err != nil {
+		panic(err)
+	}
+	return b
+}
+
+func newClient(scheme, host string, proto *gortsplib.Protocol) *gortsplib.Client {
+	return &gortsplib.Client{
+		Scheme: scheme, Host: host, Protocol: proto,
+		TLSConfig:         &tls.Config{InsecureSkipVerify: true}, //nolint:gosec
+		ReadTimeout:       3 * time.Second,
+		WriteTimeout:      3 * time.Second,
+		OnTransportSwitch: func(error) {},
+		OnPacketsLost:     func(uint64) {},
+		OnDecodeError:     func(error) {},
+	}
+}
+
+func protoPtr(tok string) *gortsplib.Protocol {
+	var p gortsplib.Protocol
+	switch tok {
+	case "u":
+		p = gortsplib.ProtocolUDP
+	case "m":
+		p = gortsplib.ProtocolUDPMulticast
+	case "t":
+		p = gortsplib.ProtocolTCP
+	default:
+		return nil
+	}
+	return &p
+}
+
+func cviol(c *corr.Ctx, clause, key string, in any, detail string) {
+	c.Violate(corr.Violation{Property: prop, Clause: clause, Key: key, Where: "client.go", Input: in, Detail: detail})
+}
+
+// clientPick: which transport/profile the client asks for (first SETUP), for every configuration.
+func clientPick(c *corr.Ctx, s *scripted) {
+	for _, tlsOn := range []bool{false, true} {
+		for _, cp := range []string{"n", "u", "m", "t"} {
+			for _, mediaSecure := range []bool{false, true} {
+				for _, h264 := range []bool{false, true} {
+					in := map[string]any{"kind": "client", "what": "cpick", "tls": tlsOn, "protocol": cp, "media_secure": mediaSecure, "h264_mode0": h264}
+					s.mu.Lock()
+					s.setups = nil
+					s.onDescribe = func(_ *base.Request, _ bool) *base.Response {
+						return &base.Response{StatusCode: base.StatusOK, Header: base.Header{"Content-Type": base.HeaderValue{"application/sdp"}}, Body: sdpFor(c, mediaSecure, h264)}
+					}
+					s.onSetup = func(_ *base.Request) *base.Response { return &base.Response{StatusCode: base.StatusBadRequest} }
+					s.mu.Unlock()
+					cl := newClient(schemeOf(tlsOn), s.addr(tlsOn), protoPtr(cp))
+					if err := cl.Start(); err != nil {
+						c.Note("cpick start: " + err.Error())
+						continue
+					}
+					u, _ := base.ParseURL(schemeOf(tlsOn) + "://" + s.addr(tlsOn) + "/stream")
+					d, _, err := cl.Describe(u)
+					if err != nil {
+						cl.Close()
+						c.Note("cpick describe: " + err.Error())
+						continue
+					}
+					_, serr := cl.Setup(d.BaseURL, d.Medias[0], 0, 0)
+					cl.Close()
+					s.mu.Lock()
+					setups := append([]*base.Request{}, s.setups...)
+					s.mu.Unlock()
+					impl := "refused"
+					if len(setups) > 0 {
+						var th headers.Transport
+						if err = th.Unmarshal(setups[0].Header["Transport"]); err != nil {
+							c.Note("cpick transport: " + err.Error())
+							continue
+						}
+						hasKM := setups[0].Header["KeyMgmt"] != nil
+						impl = fmt.Sprintf("req %s %s %s", sessProtoToken(&th), profToken(th.Profile), corr.B(hasKM))
+						// property oracle
+						if !tlsOn && th.Profile == headers.TransportProfileSAVP {
+							cviol(c, "no secure profile (keys in clear) over plain RTSP", "sec-client-secure-over-plain", in, "client asked for RTP/SAVP on rtsp://")
+						}
+						if tlsOn && th.Protocol == headers.TransportProtocolUDP && th.Profile != headers.TransportProfileSAVP {
+							cviol(c, "no unencrypted UDP over RTSPS", "sec-client-plain-udp-over-tls", in, "client asked for RTP/AVP over UDP on rtsps://")
+						}
+						if hasKM != (th.Profile == headers.TransportProfileSAVP) {
+							cviol(c, "the client sends its key exactly with the secure profile", "sec-client-keymgmt", in, impl)
+						}
+					} else if serr == nil {
+						cviol(c, "a refused SETUP returns an error", "sec-client-silent-refusal", in, "no SETUP sent and no error")
+					}
+					c.Dist("cpick-" + strings.Fields(impl)[0])
+					c.Add(corr.Case{Name: fmt.Sprintf("cpick-%v-%s-%v-%v", tlsOn, cp, mediaSecure, h264),
+						Ops:  []string{fmt.Sprintf("sec cpick %s %s %s %s 0", map[bool]string{false: "r", true: "s"}[tlsOn], cp, map[bool]string{false: "a", true: "s"}[mediaSecure], corr.B(h264))},
+						Impl: []string{impl}, Nontrivial: true})
+				}
+			}
+		}
+	}
+}
+
+// clientProfileCheck: the client refuses a SETUP answer whose profile differs from the request.
+func clientProfileCheck(c *corr.Ctx, s *scripted) {
+	for _, reqSecure := range []bool{false, true} {
+		for _, ansSecure := range []bool{false, true} {
+			in := map[string]any{"kind": "client", "what": "cprof", "requested_secure": reqSecure, "answered_secure": ansSecure}
+			s.mu.Lock()
+			s.setups = nil
+			s.onDescribe = func(_ *base.Request, _ bool) *base.Response {
+				return &base.Response{StatusCode: base.StatusOK, Header: base.Header{"Content-Type": base.HeaderValue{"application/sdp"}}, Body: sdpFor(c, reqSecure, false)}
+			}
+			s.onSetup = func(_ *base.Request) *base.Response {
+				th := headers.Transport{Protocol: headers.TransportProtocolTCP, Profile: headers.TransportProfileAVP, InterleavedIDs: &[2]int{0, 1}}
+				if ansSecure {
+					th.Profile = headers.TransportProfileSAVP
+				}
+				d := headers.TransportDeliveryUnicast
+				th.Delivery = &d
+				return &base.Response{StatusCode: base.StatusOK, Header: base.Header{"Transport": th.Marshal(), "Session": base.HeaderValue{"12345678"}}}
+			}
+			s.mu.Unlock()
+			// the requested profile is secure iff rtsps and the media is secure
+			cl := newClient("rtsps", s.addr(true), protoPtr("t"))
+			if err := cl.Start(); err != nil {
+				c.Note("cprof start: " + err.Error())
+				continue
+			}
+			u, _ := base.ParseURL("rtsps://" + s.addr(true) + "/stream")
+			d, _, err := cl.Describe(u)
+			if err != nil {
+				cl.Close()
+				c.Note("cprof describe: " + err.Error())
+				continue
+			}
+			_, serr := cl.Setup(d.BaseURL, d.Medias[0], 0, 0)
+			cl.Close()
+			impl := corr.B(serr == nil)
+			if serr == nil && reqSecure != ansSecure {
+				cviol(c, "the answered profile must be the requested one (no downgrade by the answer)", "sec-client-profile-change-accepted", in, "SETUP answer with another profile accepted")
+			}
+			if serr != nil && reqSecure == ansSecure {
+				c.Note("cprof: matching profile refused: " + serr.Error())
+			}
+			p := map[bool]string{false: "a", true: "s"}
+			c.Add(corr.Case{Name: fmt.Sprintf("cprof-%v-%v", reqSecure, ansSecure), Ops: []string{fmt.Sprintf("sec cprof %s %s", p[reqSecure], p[ansSecure])}, Impl: []string{impl}, Nontrivial: true})
+			c.Dist("cprof-" + impl)
+		}
+	}
+}
+
+// clientRedirects: chains of redirects over both schemes.
+func clientRedirects(c *corr.Ctx, s *scripted) {
+	maxLen := 3
+	if !c.Quick() {
+		maxLen = 5
+	}
+	for _, startTLS := range []bool{false, true} {
+		for l := 0; l <= maxLen; l++ {
+			for code := 0; code < 1<<l; code++ {
+				chain := make([]bool, l) // true = rtsps
+				toks := ""
+				for i := range chain {
+					chain[i] = code&(1<<i) != 0
+					toks += map[bool]string{false: "r", true: "s"}[chain[i]]
+				}
+				if toks == "" {
+					toks = "-"
+				}
+				in := map[string]any{"kind": "client", "what": "redirect", "start_tls": startTLS, "chain": toks}
+				s.mu.Lock()
+				s.describes = nil
+				s.onDescribe = func(req *base.Request, _ bool) *base.Response {
+					var hop int
+					if _, err := fmt.Sscanf(req.URL.Path, "/hop%d", &hop); err != nil || hop >= len(chain) {
+						return &base.Response{StatusCode: base.StatusNotFound}
+					}
+					codes := []base.StatusCode{base.StatusMovedPermanently, base.StatusFound, 303, base.StatusUseProxy}
+					return &base.Response{StatusCode: codes[hop%len(codes)], Header: base.Header{
+						"Location": base.HeaderValue{fmt.Sprintf("%s://%s/hop%d", schemeOf(chain[hop]), s.addr(chain[hop]), hop+1)},
+					}}
+				}
+				s.mu.Unlock()
+				cl := newClient(schemeOf(startTLS), s.addr(startTLS), nil)
+				if err := cl.Start(); err != nil {
+					c.Note("redirect start: " + err.Error())
+					continue
+				}
+				u, _ := base.ParseURL(schemeOf(startTLS) + "://" + s.addr(startTLS) + "/hop0")
+				_, _, derr := cl.Describe(u)
+				final := cl.Scheme
+				cl.Close()
+				s.mu.Lock()
+				nd := len(s.describes)
+				seen := append([]string{}, s.describes...)
+				s.mu.Unlock()
+				refused := "-"
+				if nd <= l { // the Location of hop nd-1 was not followed
+					refused = strconv.Itoa(nd - 1)
+				}
+				impl := fmt.Sprintf("%s %s", map[string]string{"rtsp": "r", "rtsps": "s"}[final], refused)
+				// property oracle: once on rtsps never a request on rtsp
+				onTLS := startTLS
+				for _, d := range seen {
+					if strings.HasPrefix(d, "rtsps://") {
+						onTLS = true
+					} else if onTLS {
+						cviol(c, "the client refuses a redirect from rtsps to rtsp", "sec-client-downgrade", in, "DESCRIBE sent over rtsp after rtsps: "+d)
+					}
+				}
+				if derr == nil {
+					c.Note("redirect: describe succeeded unexpectedly")
+				}
+				c.Dist("redirect-" + map[bool]string{true: "refused", false: "followed"}[refused != "-"])
+				c.Add(corr.Case{Name: fmt.Sprintf("redirect-%v-%s", startTLS, toks), Ops: []string{fmt.Sprintf("sec redirect %s %s", map[bool]string{false: "r", true: "s"}[startTLS], toks)},
+					Impl: []string{impl}, Nontrivial: l > 0})
+			}
+		}
+	}
+}
+
+// clientAnnounce: whether the description the client announces is secure.
+func clientAnnounce(c *corr.Ctx, s *scripted) {
+	for _, tlsOn := range []bool{false, true} {
+		for _, cp := range []string{"n", "u", "t"} {
+			for _, mediaSecure := range []bool{false, true} {
+				in := map[string]any{"kind": "client", "what": "asecure", "tls": tlsOn, "protocol": cp, "media_secure": mediaSecure}
+				s.mu.Lock()
+				s.announces = nil
+				s.onAnnounce = func(_ *base.Request) *base.Response { return &base.Response{StatusCode: base.StatusBadRequest} }
+				s.mu.Unlock()
+				d := mkDesc([]int{1}, false)
+				if mediaSecure {
+					d.Medias[0].Profile = headers.TransportProfileSAVP
+				}
+				cl := newClient("", "", protoPtr(cp))
+				err := cl.StartRecording(schemeOf(tlsOn)+"://"+s.addr(tlsOn)+"/stream", d)
+				if err == nil {
+					cl.Close()
+				}
+				s.mu.Lock()
+				ann := append([]*base.Request{}, s.announces...)
+				s.mu.Unlock()
+				if len(ann) == 0 {
+					c.Note("asecure: no ANNOUNCE seen")
+					continue
+				}
+				body := string(ann[0].Body)
+				secure := strings.Contains(body, "RTP/SAVP")
+				hasKey := strings.Contains(body, "a=key-mgmt:")
+				if secure != hasKey {
+					cviol(c, "the announced description carries a key exactly with the secure profile", "sec-client-announce-key", in, body)
+				}
+				if secure && !tlsOn {
+					cviol(c, "no secure profile (keys in clear) over plain RTSP", "sec-client-announce-secure-over-plain", in, "RTP/SAVP announced on rtsp://")
+				}
+				if !secure && tlsOn && cp != "t" {
+					cviol(c, "no unencrypted UDP over RTSPS", "sec-client-announce-plain-over-tls", in, "RTP/AVP announced on rtsps:// without forcing TCP")
+				}
+				c.Dist("asecure-" + corr.B(secure))
+				c.Add(corr.Case{Name: fmt.Sprintf("asecure-%v-%s-%v", tlsOn, cp, mediaSecure),
+					Ops:  []string{fmt.Sprintf("sec asecure %s %s %s", map[bool]string{false: "r", true: "s"}[tlsOn], cp, corr.B(mediaSecure))},
+					Impl: []string{corr.B(secure)}, Nontrivial: true})
+			}
+		}
+	}
+}
+
+func runClientSide(c *corr.Ctx) {
+	s, err := newScripted()
+	if err != nil {
+		c.Note("scripted server: " + err.Error())
+		return
+	}
+	defer s.close()
+	clientPick(c, s)
+	clientProfileCheck(c, s)
+	clientRedirects(c, s)
+	clientAnnounce(c, s)
+}
+
+func replayClient(c *corr.Ctx, in *Input) {
+	runClientSide(c) // the client-side tables are small and exhaustive
+}
